@@ -255,8 +255,10 @@ def explore_shard(acc, shard):
                 sig = MU.signature(p)
                 if not all(sig):
                     acc.count("nontrivial")
-                for ext in (".sm", ".ssc"):
-                    data = MU.file_bytes(ext, p, with_chart=False)
+                for ext, variant in ((".sm", None), (".ssc", None), (".sm", "commentonly"), (".ssc", "chartsonly")):
+                    data = MU.file_bytes(ext, p, with_chart=False, variant=variant)
+                    if variant:
+                        acc.outcome("file without any header property")
                     for ln in LISTS:
                         case = {"kind": "detect", "fs": fsname, "ext": ext, "data": data.hex(), "list": ln}
                         core.guard_cheap(acc, case)
@@ -315,7 +317,7 @@ def explore_shard(acc, shard):
             scripts = [()] + [(e,) for e in MU.EDITS] + ([tuple(s) for n in range(2, maxlen + 1) for s in itertools.product(MU.EDITS, repeat=n)])
             scripts += [("title_unencodable",), ("append_chart", "title_unencodable"), ("title_unencodable", "set_new")]
             for ext in (".sm", ".ssc"):
-                for with_chart, variant in ((False, None), (True, None), (False, "unterminated"), (True, "crlf")):
+                for with_chart, variant in ((False, None), (True, None), (False, "unterminated"), (True, "crlf"), (False, "empty"), (False, "commentonly"), (False, "chartsonly")):
                     if variant == "crlf" and fsname != "mem":
                         continue  # native text mode translates CRLF on reading; MemoryFS keeps it inside values
                     data = MU.file_bytes(ext, payload, with_chart, key_only=with_chart, variant=variant)
@@ -382,15 +384,16 @@ def explore(run):
     run.rule = (
         "E: every 1-byte payload (MemoryFS and native) and "
         + ("every 2-byte payload with a high lead byte" if run.thorough() else "all 2-byte payloads for 7 lead bytes")
-        + f" embedded as '#TITLE:<payload>;' in .sm and .ssc x tried lists {list(LISTS)} + explicit encoding= ; "
+        + f" embedded as '#TITLE:<payload>;' in .sm and .ssc, in a comment-only .sm and in a charts-only .ssc x tried lists {list(LISTS)} + explicit encoding= ; "
         f"B: {len(boundary_payloads())} multi-byte payloads placed at every offset N-d (d = 0..length) for N in {list(BOUNDARIES_THOROUGH if run.thorough() else BOUNDARIES_QUICK)}, with and without text behind, x 3 lists x both filesystems; "
-        f"M: one representative payload per decodability signature ({nsig} signatures found by brute force) x 2 layouts x {{.sm,.ssc}} x output name x backup {{none, other, =input, =output}} x "
+        f"M: one representative payload per decodability signature ({nsig} signatures found by brute force) x 7 layouts (with/without chart, unterminated, CRLF, empty file, comments only, charts only) x {{.sm,.ssc}} x output name x backup {{none, other, =input, =output}} x "
         f"encoding list {{default, reversed, explicit}} x filesystem x edit scripts of length <= {maxlen} over {MU.EDITS} x (for scripts of <= 1 edit) output/backup names free or already taken by older files x (native) absolute names or names relative to the current directory; after each run the whole filesystem is compared with the model and a no-op mutate is run on the written file. "
         "Non-trivial = payload not decodable everywhere / any edit, output or backup."
     )
     run.assumptions = ["Python's codecs define what 'decodes' means", "values contain no bare carriage return", "MemoryFS text streams do no newline translation, native ones do (universal newlines)"]
     core.require(acc.outcomes["no tried encoding decodes (UnicodeDecodeError)"] > 0, "error clause not exercised")
     core.require(acc.outcomes["clashing backup name"] > 0, "no clashing backup name")
+    core.require(acc.outcomes["file without any header property"] > 0, "no header-less file")
     core.require(acc.outcomes["file names relative to the current directory"] > 0, "no relative names")
     core.require(acc.outcomes["output / backup name already taken by an older file"] > 0, "no pre-existing output / backup file")
     core.require(acc.outcomes["multi-byte character straddling a buffer-size offset"] > 0, "no straddling character")
